@@ -191,8 +191,10 @@ func Run(chooser Chooser, maxSteps int, main func()) *Sched {
 		}
 		s.cur = t
 		s.last = t
+		raceDisable()
 		t.wake <- true
 		<-s.yield
+		raceEnable()
 		s.cur = nil
 	}
 	s.abortAll()
@@ -239,13 +241,17 @@ func (s *Sched) spawn(name string, fn func()) *Thread {
 	t := &Thread{ID: len(s.Threads), Name: name, wake: make(chan bool), What: "start", fn: fn}
 	s.Threads = append(s.Threads, t)
 	go func() {
+		raceDisable()
 		ok := <-t.wake
+		raceEnable()
 		defer func() {
 			if r := recover(); r != nil {
 				t.Panic = fmt.Sprintf("%v\n%s", r, debug.Stack())
 			}
 			t.done = true
+			raceDisable()
 			s.yield <- struct{}{}
+			raceEnable()
 		}()
 		if !ok {
 			t.aborting = true
@@ -265,8 +271,10 @@ func (s *Sched) abortAll() {
 			continue
 		}
 		s.cur = t
+		raceDisable()
 		t.wake <- false
 		<-s.yield
+		raceEnable()
 	}
 	s.cur = nil
 }
@@ -286,8 +294,11 @@ func Point(what string, idle bool, cond func() bool) {
 		return
 	}
 	t.What, t.Idle, t.cond = what, idle, cond
+	RaceRelease(&quietToken) // whoever observes the world at quiescence comes after everything done so far
+	raceDisable()
 	s.yield <- struct{}{}
 	ok := <-t.wake
+	raceEnable()
 	if !ok {
 		t.aborting = true
 		runtime.Goexit()
@@ -295,6 +306,8 @@ func Point(what string, idle bool, cond func() bool) {
 	t.cond = nil
 	t.Idle = false
 }
+
+var quietToken int
 
 // Unmanaged runs f with the scheduling points switched off (harness set-up loops that would
 // otherwise cost hundreds of thousands of points). Only legal while no other thread can interfere,
@@ -335,12 +348,16 @@ func WaitQuiet() {
 	}
 	t.quiet = true
 	t.What = "wait-quiet"
+	RaceRelease(&quietToken)
+	raceDisable()
 	s.yield <- struct{}{}
 	ok := <-t.wake
+	raceEnable()
 	if !ok {
 		t.aborting = true
 		runtime.Goexit()
 	}
+	RaceAcquire(&quietToken)
 }
 
 // Settle runs the world to quiescence, jumping the virtual clock forward to sleepers' wake-ups as
@@ -502,6 +519,7 @@ func Send[T any](c chan T, v T) {
 	}
 	st := s.ch(c)
 	Point("chan-send", false, func() bool { return st.recvWaiting > len(st.handoff) })
+	RaceRelease(st)
 	st.handoff = append(st.handoff, v)
 }
 
@@ -519,6 +537,7 @@ func Recv[T any](c chan T) T {
 	st.recvWaiting++
 	Point("chan-recv", true, func() bool { return len(st.handoff) > 0 })
 	st.recvWaiting--
+	RaceAcquire(st)
 	v := st.handoff[0].(T)
 	st.handoff = st.handoff[1:]
 	return v
